@@ -32,3 +32,7 @@ void printPad3To(Print& printer, uint16_t val, char pad) {
 }
 int strcmp_PP(const char* a, const char* b) { return strcmp(a, b); }
 }
+#if ACE_TIME_VERIF_HOOKS
+// counter incremented by the guarded verification hook in BasicZoneProcessor::addTransition
+extern "C" { unsigned long ace_time_verif_basic_dropped = 0; }
+#endif
